@@ -28,6 +28,10 @@ pub fn translate(query: &str) -> Result<LogicalPlan> {
 struct GremlinTranslator {
     /// Counter for generating anonymous variables.
     var_counter: AtomicU32,
+    /// For every edge variable introduced by outE / inE / bothE: the vertex the traverser came
+    /// from, the vertex at the other end, and the direction of the expansion, so that
+    /// inV / outV / otherV can move on to the right vertex.
+    edge_ends: parking_lot::Mutex<std::collections::HashMap<String, (String, String, ExpandDirection)>>,
 }
 
 /// Context for building an edge during traversal processing.
@@ -42,6 +46,7 @@ impl GremlinTranslator {
     fn new() -> Self {
         Self {
             var_counter: AtomicU32::new(0),
+            edge_ends: parking_lot::Mutex::new(std::collections::HashMap::new()),
         }
     }
 
@@ -332,10 +337,20 @@ impl GremlinTranslator {
                 let target_var = self.next_var();
 
                 plan = LogicalOperator::Expand(ExpandOp {
-                    from_variable: var,
-                    to_variable: target_var,
+                    from_variable: var.clone(),
+                    to_variable: target_var.clone(),
                     edge_variable: Some(edge_var.clone()),
-                    direction: ExpandDirection::Outgoing, // Use Outgoing to avoid duplicate edges
+                    direction: {
+                        self.edge_ends.lock().insert(
+                            edge_var.clone(),
+                            (
+                                var,
+                                target_var.clone(),
+                                ExpandDirection::Outgoing,
+                            ),
+                        );
+                        ExpandDirection::Outgoing
+                    }, // Use Outgoing to avoid duplicate edges
                     edge_type: None,
                     min_hops: 1,
                     max_hops: Some(1),
@@ -436,9 +451,19 @@ impl GremlinTranslator {
                 let edge_type = labels.first().cloned();
                 let plan = LogicalOperator::Expand(ExpandOp {
                     from_variable: current_var.to_string(),
-                    to_variable: target_var,
+                    to_variable: target_var.clone(),
                     edge_variable: Some(edge_var.clone()),
-                    direction: ExpandDirection::Outgoing,
+                    direction: {
+                        self.edge_ends.lock().insert(
+                            edge_var.clone(),
+                            (
+                                current_var.to_string(),
+                                target_var.clone(),
+                                ExpandDirection::Outgoing,
+                            ),
+                        );
+                        ExpandDirection::Outgoing
+                    },
                     edge_type,
                     min_hops: 1,
                     max_hops: Some(1),
@@ -453,9 +478,19 @@ impl GremlinTranslator {
                 let edge_type = labels.first().cloned();
                 let plan = LogicalOperator::Expand(ExpandOp {
                     from_variable: current_var.to_string(),
-                    to_variable: target_var,
+                    to_variable: target_var.clone(),
                     edge_variable: Some(edge_var.clone()),
-                    direction: ExpandDirection::Incoming,
+                    direction: {
+                        self.edge_ends.lock().insert(
+                            edge_var.clone(),
+                            (
+                                current_var.to_string(),
+                                target_var.clone(),
+                                ExpandDirection::Incoming,
+                            ),
+                        );
+                        ExpandDirection::Incoming
+                    },
                     edge_type,
                     min_hops: 1,
                     max_hops: Some(1),
@@ -470,9 +505,19 @@ impl GremlinTranslator {
                 let edge_type = labels.first().cloned();
                 let plan = LogicalOperator::Expand(ExpandOp {
                     from_variable: current_var.to_string(),
-                    to_variable: target_var,
+                    to_variable: target_var.clone(),
                     edge_variable: Some(edge_var.clone()),
-                    direction: ExpandDirection::Both,
+                    direction: {
+                        self.edge_ends.lock().insert(
+                            edge_var.clone(),
+                            (
+                                current_var.to_string(),
+                                target_var.clone(),
+                                ExpandDirection::Both,
+                            ),
+                        );
+                        ExpandDirection::Both
+                    },
                     edge_type,
                     min_hops: 1,
                     max_hops: Some(1),
@@ -888,6 +933,29 @@ impl GremlinTranslator {
                         // by() without a preceding order() - ignore
                         Ok((input, None))
                     }
+                }
+            }
+
+            // From an edge to one of its vertices
+            ast::Step::InV | ast::Step::OutV | ast::Step::OtherV => {
+                let ends = self.edge_ends.lock().get(current_var).cloned();
+                match (ends, step) {
+                    // otherV: the end the traverser did not come from
+                    (Some((_, other, _)), ast::Step::OtherV) => Ok((input, Some(other))),
+                    // outE: edge points from the origin to the other end; inE: the reverse
+                    (Some((_, other, ExpandDirection::Outgoing)), ast::Step::InV)
+                    | (Some((_, other, ExpandDirection::Incoming)), ast::Step::OutV) => {
+                        Ok((input, Some(other)))
+                    }
+                    (Some((origin, _, ExpandDirection::Outgoing)), ast::Step::OutV)
+                    | (Some((origin, _, ExpandDirection::Incoming)), ast::Step::InV) => {
+                        Ok((input, Some(origin)))
+                    }
+                    (Some((_, _, ExpandDirection::Both)), _) => Err(Error::Internal(
+                        "inV() / outV() after bothE() is not supported; use otherV()".to_string(),
+                    )),
+                    // not on an edge introduced by outE / inE / bothE: as before
+                    _ => Ok((input, None)),
                 }
             }
 
